@@ -9,7 +9,7 @@ import vp
 
 META = {
     "level": "model_checking",
-    "engine": "tla-trace-validation",
+    "engine": "tla-roundtrip",
     "technique": "TLC model checking of an implementation-shaped TLA+ model of the create/open/open_or_create/drop "
                  "protocol against an atomic-object property layer (lock-step shadow), trace validation of real "
                  "sequential, multi-thread and multi-process histories as a linearizability problem, and a "
@@ -487,7 +487,7 @@ def part_sched(ctx):
         scen = ["lastdrop_vs_open", "create_vs_open"]
     else:
         pats = PATS
-        extra = ["--stride", 2]
+        extra = ["--stride", 3]
         scen = [None]
 
     def one(job):
